@@ -215,6 +215,7 @@ def real_layers():
     add(4326, {'base': 'GLOBAL_GEODETIC', 'res_factor': 'sqrt2', 'min_res': 0.3515625, 'num_levels': 5, 'origin': 'ul'}, sqrt2=True)  # 4x2
     add(900913, {'base': 'GLOBAL_MERCATOR', 'res_factor': 'sqrt2', 'min_res': 78271.51696402048, 'num_levels': 6, 'origin': 'nw'},
         sqrt2=True)                                                                                                  # 2x2
+    add(900913, {'base': 'GLOBAL_MERCATOR', 'res_factor': 'sqrt2', 'num_levels': 4}, sqrt2=True)   # internal_level(0) = 4 does not exist
     return out
 
 
@@ -473,6 +474,7 @@ class Run(object):
         self.wmscdoc = ([], [])
         self.wmsc = ([], [])
         self.kml = ([], [])
+        self.svcgrid = ([], [])
         self.known = {}
 
     def add(self, table, term, desc):
@@ -892,6 +894,21 @@ def run_app(R, layers, tms_origin, idx0):
         states.append(st)
         R.defs.append(st.gc.definition())
         R.defs.append(layer_gallina(st))
+        # TileServiceGrid.internal_level / .bbox (demo pages)
+        try:
+            ils = [int(tl[0].grid.internal_level(k)) for k in range(4)]
+        except Exception as e:  # noqa
+            ils = None
+        try:
+            sb = tuple(tl[0].grid.bbox)
+            sbt = '(Some (%s, %s, %s, %s))' % tuple(zlit(st.gc.z(v)) for v in sb) if all(st.gc.can_scale(v) for v in sb) else '(Some (0, 0, 0, 0))'
+        except IndexError:
+            sb, sbt = 'IndexError', 'None'
+        except Exception as e:  # noqa
+            sb, sbt = 'raised:' + type(e).__name__, '(Some (0, 0, 0, 0))'
+        if ils is not None:
+            R.add(R.svcgrid, '(%s, %s, %s)' % (st.lname, llit(ils), sbt), {'layer': spec.describe(), 'internal_level': ils, 'bbox': repr(sb)})
+            ctx.case(('svcgrid', json.dumps(spec.describe(), sort_keys=True)), True)
         for key in ('origin=' + ('ul' if st.gc.ul else 'll'), 'profile=' + st.profile, 'sqrt2=%s' % st.sqrt2, 'ne=%s' % st.ne,
                     'extent_differs=%s' % st.extent_differs, 'kind=' + spec.kind,
                     'aligned=%s' % all(misalign(st, l) == 0 for l in range(len(st.gc.res)))):
@@ -1251,6 +1268,9 @@ def run(ctx):
                    "fun c => let '(s, d) := c in tms_doc_eqb (tms_tilemap s) d", lambda i: R.tmsdoc[1][i], defs=defs)
     ctx.corr_check('wmts_matrix_set', imports, 'tlayer * Z * option (list tile_matrix)', R.wmtsdoc[0],
                    "fun c => let '(s, tol, d) := c in omatrices_close tol (wmts_matrix_set s) d", lambda i: R.wmtsdoc[1][i], defs=defs)
+    ctx.corr_check('svc_grid', imports, 'tlayer * list Z * option bbox', R.svcgrid[0],
+                   "fun c => let '(s, ils, b) := c in list_eqb Z.eqb (map (internal_level s) [0; 1; 2; 3]) ils && opt_eqb bbox_eqb (svc_bbox s) b",
+                   lambda i: R.svcgrid[1][i], defs=defs)
     ctx.corr_check('wmsc_tileset', imports, 'tlayer * bbox * list Z * Z * Z', R.wmscdoc[0],
                    "fun c => let '(s, b, rs, w, h) := c in bbox_eqb (s_extent s) b && list_eqb Z.eqb (map snd (tile_sets s)) rs "
                    "&& (tw (sg s) =? w) && (th (sg s) =? h)", lambda i: R.wmscdoc[1][i], defs=defs)
